@@ -34,7 +34,7 @@ theorem TInv.copStep {t t' : Target} {c : Bool} (b : Beh) (h : TInv t c) (hs : t
   all_goals (try (cases hs; done))
   all_goals grind
 
-theorem TInv.push {t t' : Target} {ch : List Byte} (h : TInv t false) (hp : t.push ch = some t') : TInv t' false := by
+theorem TInv.push {t t' : Target} {ch : Msg} (h : TInv t false) (hp : t.push ch = some t') : TInv t' false := by
   unfold Target.push at hp
   unfold TInv at *
   split at hp
@@ -83,11 +83,11 @@ def CSt.rank : CSt → Nat
   | .close => 2
   | .done => 0
 
-def bufW : List (List Byte) → Nat
+def bufW : List Msg → Nat
   | [] => 0
-  | m :: r => m.length + 4 + bufW r
+  | m :: r => m.chunk.length + 4 + bufW r
 
-theorem bufW_append (a : List (List Byte)) (m : List Byte) : bufW (a ++ [m]) = bufW a + (m.length + 4) := by
+theorem bufW_append (a : List Msg) (m : Msg) : bufW (a ++ [m]) = bufW a + (m.chunk.length + 4) := by
   induction a with
   | nil => simp [bufW]
   | cons x r ih => simp [bufW, ih]; omega
@@ -125,7 +125,7 @@ theorem mu_copStep {t t' : Target} (b : Beh) (hs : t.copStep b = some t') : t'.m
       have := minOpt_pos pending.length _ hpos (by assumption)
       simp [ho]; omega)
 
-theorem mu_push {t t' : Target} {ch : List Byte} (hp : t.push ch = some t') : t'.mu = t.mu + (ch.length + 4) := by
+theorem mu_push {t t' : Target} {ch : Msg} (hp : t.push ch = some t') : t'.mu = t.mu + (ch.chunk.length + 4) := by
   unfold Target.push at hp
   split at hp
   · injection hp with hp; subst hp; simp [Target.mu, bufW_append]; omega
@@ -138,9 +138,9 @@ end Eru.Misc.Sender
 /-! ### the whole call -/
 namespace Eru.Misc.Sender
 
-def todoW : List (Nat × List Byte) → Nat
+def todoW : List (Nat × Msg) → Nat
   | [] => 0
-  | (_, ch) :: r => ch.length + 5 + todoW r
+  | (_, ch) :: r => ch.chunk.length + 5 + todoW r
 
 def musum : List Target → Nat
   | [] => 0
@@ -240,15 +240,31 @@ theorem mem_set_cases {α : Type} {l : List α} {i : Nat} {a x : α} (h : x ∈ 
         · exact Or.inl rfl
         · exact Or.inr (by simp [h'])
 
-theorem GInv.init (behs : List Beh) (chunks : List (List Byte)) : GInv behs (initState behs.length chunks) := by
+theorem mem_dedup {l : List Nat} {i : Nat} : i ∈ dedup l ↔ i ∈ l := by
+  induction l with
+  | nil => simp [dedup]
+  | cons x r ih =>
+    simp only [dedup, List.mem_cons, List.mem_filter, ih]
+    constructor
+    · rintro (h | ⟨h, _⟩)
+      · exact Or.inl h
+      · exact Or.inr h
+    · rintro (h | h)
+      · exact Or.inl h
+      · by_cases hx : i = x
+        · exact Or.inl hx
+        · exact Or.inr ⟨h, by simpa using hx⟩
+
+theorem GInv.init (behs : List Beh) (ids : List Nat) (msgs : List Msg) (hids : ∀ i ∈ ids, i < behs.length) :
+    GInv behs (initState behs.length ids msgs) := by
   refine ⟨by simp [initState], ?_, ?_, by simp [initState]⟩
   · intro t ht
     simp [initState] at ht
     rw [ht.2]; exact TInv.init
   · intro p hp
-    simp only [initState, List.mem_flatMap, List.mem_map, List.mem_range] at hp
+    simp only [initState, List.mem_flatMap, List.mem_map] at hp
     obtain ⟨_, _, i, hi, rfl⟩ := hp
-    simpa [initState] using hi
+    simpa [initState] using hids i (mem_dedup.mp hi)
 
 theorem GInv.step (behs : List Beh) (s s' : State) (a : Action) (hI : GInv behs s)
     (h : step behs s a = some s') : GInv behs s' := by
